@@ -31,7 +31,7 @@ func c01Case(t *testing.T, root *vw.Rng, ci int, tr *vw.Trace) {
 	wide := r.Chance(3, 10)
 	d := vc.NewDriver(r, nTS, []bool{wide || r.Chance(4, 5), r.Chance(1, 2)}, id)
 	defer d.Cl.Close()
-	d.AckCheck, d.AllTracts = false, false
+	d.AckCheck, d.AllTracts = true, true
 	d.Big = r.Chance(1, 5)
 	d.MaxTracts = r.PickInt(1, 2, 3, 3)
 	if d.Big && d.MaxTracts < 2 {
